@@ -59,6 +59,8 @@ class Session:
             "shave_backtrack": 0,
             "max_top": 0,
             "bc_inconsistent": 0,
+            "alg_bound": 0,
+            "pushes": 0,
         }
         # budgets
         self.pass_budget = None  # remaining propagator executions in the current BC pass
@@ -90,13 +92,17 @@ def _wrap_compute(i, orig):
             s.pass_budget -= 1
             if s.pass_budget < 0:
                 raise BudgetExceeded("one propagation pass executed more than (S+1)*P+P = %d propagators" % s.pass_bound)
-        inbox = domains.copy() if s.detail else None
+        inbox = domains.copy()
         status = orig(domains, params)
         s.n["filter"] += 1
         if status == nx.PROP_INCONSISTENCY:
             s.n["filter_inc"] += 1
-        elif status == nx.PROP_ENTAILMENT:
-            s.n["filter_ent"] += 1
+        else:
+            if status == nx.PROP_ENTAILMENT:
+                s.n["filter_ent"] += 1
+            # the write-back narrows a shared domain iff some view was narrowed
+            if not ((domains[:, 0] > inbox[:, 0]).any() or (domains[:, 1] < inbox[:, 1]).any()):
+                s.n["filter_nochange"] += 1
         if s.cur_pass is not None:
             s.cur_pass["last"] = (i, status)
         if s.detail:
@@ -121,7 +127,6 @@ def _wrap_bc(orig):
         s.pass_bound = (size + 1) * nprop + nprop
         s.pass_budget = s.pass_bound
         s.cur_pass = {"changes": 0}
-        nochange0 = int(statistics[nx_idx("STATS_IDX_PROPAGATOR_FILTER_NO_CHANGE_NB")])
         s.n["bc"] += 1
         try:
             status = orig(*a)
@@ -129,6 +134,8 @@ def _wrap_bc(orig):
             s.pass_budget, s.pass_bound, s.cur_pass = saved_budget, saved_bound, saved_pass
         if status == nx.PROBLEM_INCONSISTENT:
             s.n["bc_inconsistent"] += 1
+        elif status == nx.PROBLEM_BOUND and s.in_shaving == 0:
+            s.n["alg_bound"] += 1
         if s.detail:
             s.emit("on_pass", "bc", before, shr_domains_stack[top], int(status), a, s.in_shaving > 0)
         return status
@@ -145,16 +152,26 @@ def _wrap_shaving(orig):
         shr_domains_stack, stacks_top = a[10], a[13]
         top = int(stacks_top[0])
         before = shr_domains_stack[top].copy()
-        below = shr_domains_stack[:top].copy() if s.detail else None
-        flags_below = a[11][:top].copy() if s.detail else None
+        entry = None
+        if s.detail:
+            entry = {
+                "below": shr_domains_stack[:top].copy(),
+                "flags_below": a[11][:top].copy(),
+                "upd_below": a[12][:top].copy(),
+                "flags": a[11][top].copy(),
+                "triggered": a[14].copy(),
+                "top": top,
+            }
         s.n["shaving"] += 1
         s.in_shaving += 1
         try:
             status = orig(*a)
         finally:
             s.in_shaving -= 1
+        if status == nx.PROBLEM_BOUND:
+            s.n["alg_bound"] += 1
         if s.detail:
-            s.emit("on_shaving", before, below, flags_below, top, int(status), a)
+            s.emit("on_shaving", before, entry, int(status), a)
         return status
 
     shaving_consistency_algorithm.__wrapped__ = orig
@@ -188,6 +205,7 @@ def _wrap_dom_heuristic(i, orig):
         events = orig(params, shr_domains_stack, not_entailed, dom_update_stack, stacks_top, dom_idx)
         s.n["choice"] += 1
         newtop = int(stacks_top[0])
+        s.n["pushes"] += newtop - top
         if newtop > s.n["max_top"]:
             s.n["max_top"] = newtop
         if s.detail:
